@@ -13,17 +13,19 @@ import (
 
 // chunkReader is a conforming io.Reader that splits the stream into reads
 // according to a mode:
-//   0 whole (as much as asked), 1 one byte at a time, 2 at most half of what
-//   is asked (at least 1), 3 seeded random sizes, 4 like 0 but the final bytes
-//   arrive together with io.EOF, 5 like 3 and final bytes with io.EOF.
+//
+//	0 whole (as much as asked), 1 one byte at a time, 2 at most half of what
+//	is asked (at least 1), 3 seeded random sizes, 4 like 0 but the final bytes
+//	arrive together with io.EOF, 5 like 3 and final bytes with io.EOF.
+//
 // It never returns (0, nil) for a non-empty buffer.
 type chunkReader struct {
-	data  []byte
-	off   int
-	mode  int
-	rng   *Rng
-	reads int
-	short int // reads that returned fewer bytes than asked while more were available
+	data        []byte
+	off         int
+	mode        int
+	rng         *Rng
+	reads       int
+	short       int // reads that returned fewer bytes than asked while more were available
 	eofWithData int
 }
 
@@ -99,18 +101,18 @@ func (f *failWriter) Write(p []byte) (int, error) {
 // node snapshots on the simulated disk
 
 type snapshot struct {
-	at      int
-	data    []byte // what is on disk (possibly torn)
-	full    int    // length of the complete stream
-	torn    bool
-	rem     map[H]bool
-	st      u.Stump
-	cp      u.Proof
-	ch      []H
-	held    map[H]bool
-	blk     map[int]*nodeBlk
-	ops     []nodeOp
-	bootAt  int
+	at                   int
+	data                 []byte // what is on disk (possibly torn)
+	full                 int    // length of the complete stream
+	torn                 bool
+	rem                  map[H]bool
+	st                   u.Stump
+	cp                   u.Proof
+	ch                   []H
+	held                 map[H]bool
+	blk                  map[int]*nodeBlk
+	ops                  []nodeOp
+	bootAt               int
 	hasUndo, hasCacheOps bool
 }
 
@@ -287,7 +289,12 @@ func (w *World) restartNode(n *Node, chunkMode int) {
 		if pol != nil {
 			n.pol, n.acc = pol, pol
 		} else {
-			n.mp, n.acc = mp, mp
+			var op []H
+			if n.big() {
+				op = n.bigRoots()
+			}
+			n.mp = &mapView{m: mp, B: n.cfg.Big, opaque: op, node: n}
+			n.acc = n.mp
 		}
 		n.remembered = copySet(snap.rem)
 		n.blk = map[int]*nodeBlk{}
